@@ -719,6 +719,12 @@ func filesCmd(args []string) {
 		if b.outcome != "OK" {
 			fatal("cannot build the valid base index: %s", b.outcome)
 		}
+		if _, err := os.Stat(p); err != nil {
+			// Flush reported success and wrote nothing: recorded, and the cases that need the
+			// file get an empty stand-in
+			pr("NOFILE %s Flush returned nil but the output path does not exist\n", ds)
+			os.WriteFile(p, nil, 0644)
+		}
 		valid[ds] = p
 		return p
 	}
